@@ -2,6 +2,7 @@ package main
 
 import (
 	"fmt"
+	"math"
 	"sort"
 	"strings"
 
@@ -110,6 +111,11 @@ func slotPresent(fileSeq, si, fi int, slot uint16) bool {
 // cellValue: small integer (exact float arithmetic), distinct in different files for the same cell
 // (fileSeq*14 mod 23 is injective for fileSeq < 23), so sum / min / max / first / last all differ.
 func cellValue(fileSeq int, metric uint32, si, fi int, slot uint16) float64 {
+	// about one cell in 19 holds -Inf (a stored value like any other; +Inf is the encoder's marker of an empty slot):
+	// sum = -Inf, min = -Inf, max = the other contributions, first / last = one of the contributions
+	if (fileSeq*3+int(metric)*5+si*7+fi*11+int(slot)*13)%19 == 0 {
+		return math.Inf(-1)
+	}
 	return float64(1 + (fileSeq*14+int(metric)*11+si*5+fi*3+int(slot)*7)%23)
 }
 
